@@ -6,7 +6,8 @@ import IceProofs.AgentC05
 `LK T0 now ex a a'` ("live keep"): what every helper of `step` leaves alone on the paths a loss-free suffix
 can take (no API call, no role switch, no timeout): candidates keep their identity (only activity timestamps
 move), remote candidates and pairs are only appended, a pair keeps its ends, validity and the deferred
-nomination mark, the selection stays, the nominated pair stays, a pending transaction stays until it is
+nomination mark (the mark is consumed only by the response that acts upon it — then, under `LInv`, a pair is
+selected), the selection stays, the nominated pair stays, a pending transaction stays until it is
 answered (`ex`) or expires (`now`), and the bookkeeping invariant `LInv` is kept.
 
 `Timely T0 H a`: no timeout of agent `a` can fire at a tick in `[T0, H]`.
@@ -25,6 +26,13 @@ theorem IdxKeep.refl {α : Type} {R : α → α → Prop} (hR : ∀ x, R x x) (l
 
 theorem IdxKeep.trans {α : Type} {R : α → α → Prop} (hR : ∀ x y z, R x y → R y z → R x z) {l1 l2 l3 : List α}
     (h1 : IdxKeep R l1 l2) (h2 : IdxKeep R l2 l3) : IdxKeep R l1 l3 := by
+  intro i x hx
+  obtain ⟨y, hy, r1⟩ := h1 i x hx
+  obtain ⟨z, hz, r2⟩ := h2 i y hy
+  exact ⟨z, hz, hR _ _ _ r1 r2⟩
+
+theorem IdxKeep.trans2 {α : Type} {R1 R2 R3 : α → α → Prop} (hR : ∀ x y z, R1 x y → R2 y z → R3 x z) {l1 l2 l3 : List α}
+    (h1 : IdxKeep R1 l1 l2) (h2 : IdxKeep R2 l2 l3) : IdxKeep R3 l1 l3 := by
   intro i x hx
   obtain ⟨y, hy, r1⟩ := h1 i x hx
   obtain ⟨z, hz, r2⟩ := h2 i y hy
@@ -151,17 +159,22 @@ theorem ckey_equal {c c' d d' : Cand} (hc : ckey c' = ckey c) (hd : ckey d' = ck
   simp only [Cand.equal, Cand.taEqual, ckey_net hc, ckey_net hd, ckey_addr hc, ckey_addr hd, ckey_ty hc, ckey_ty hd,
     ckey_rel hc, ckey_rel hd]
 
-/-- a pair keeps its identity, its ends, its validity and the deferred-nomination mark -/
-structure PKeep (p p' : Pair) : Prop where
+/-- a pair keeps its identity, its ends, its validity and the deferred-nomination mark — the mark is consumed only
+by the success response that acts upon it (`S`: the agent has a selected pair afterwards) -/
+structure PKeep (S : Prop) (p p' : Pair) : Prop where
   id : p'.id = p.id
   l : p'.l = p.l
   r : p'.r = p.r
   succ : p.state = .succeeded → p'.state = .succeeded
-  nomOn : p.nomOnSuccess = true → p'.nomOnSuccess = true
+  nomOn : p.nomOnSuccess = true → p'.nomOnSuccess = true ∨ S
 
-theorem PKeep.refl (p : Pair) : PKeep p p := ⟨rfl, rfl, rfl, fun h => h, fun h => h⟩
-theorem PKeep.trans {p q r : Pair} (h1 : PKeep p q) (h2 : PKeep q r) : PKeep p r :=
-  ⟨h2.id.trans h1.id, h2.l.trans h1.l, h2.r.trans h1.r, fun h => h2.succ (h1.succ h), fun h => h2.nomOn (h1.nomOn h)⟩
+theorem PKeep.refl {S : Prop} (p : Pair) : PKeep S p p := ⟨rfl, rfl, rfl, fun h => h, fun h => Or.inl h⟩
+theorem PKeep.trans {S1 S2 S3 : Prop} {p q r : Pair} (h1 : PKeep S1 p q) (h2 : PKeep S2 q r) (s1 : S1 → S3)
+    (s2 : S2 → S3) : PKeep S3 p r :=
+  ⟨h2.id.trans h1.id, h2.l.trans h1.l, h2.r.trans h1.r, fun h => h2.succ (h1.succ h), fun h =>
+    (h1.nomOn h).elim (fun h' => (h2.nomOn h').imp (fun x => x) s2) (fun x => Or.inr (s1 x))⟩
+theorem PKeep.mono {S S' : Prop} {p q : Pair} (h : PKeep S p q) (hs : S → S') : PKeep S' p q :=
+  ⟨h.id, h.l, h.r, h.succ, fun x => (h.nomOn x).imp (fun y => y) hs⟩
 
 /-! ## the bookkeeping invariant -/
 
@@ -196,7 +209,7 @@ structure LInv (a : Agent) : Prop where
 structure LK (T0 now : Nat) (ex : Option Nat) (a a' : Agent) : Prop where
   locals : a'.locals.map ckey = a.locals.map ckey
   remotes : IdxKeep (CKeep T0) a.remotes a'.remotes
-  pairs : IdxKeep PKeep a.checklist a'.checklist
+  pairs : IdxKeep (PKeep (LInv a → a'.selected.isSome = true)) a.checklist a'.checklist
   selStart : a'.selStart = a.selStart
   sel : a.selected.isSome = true → a'.selected.isSome = true
   conn : a.connState ≠ .failed → a'.connState ≠ .failed
@@ -212,7 +225,10 @@ theorem LK.refl (T0 now : Nat) (ex : Option Nat) (a : Agent) : LK T0 now ex a a 
 theorem LK.trans {T0 now : Nat} {ex : Option Nat} {a b c : Agent} (h1 : LK T0 now ex a b) (h2 : LK T0 now ex b c) :
     LK T0 now ex a c :=
   ⟨h2.locals.trans h1.locals, IdxKeep.trans (R := CKeep T0) (fun _ _ _ x y => CKeep.trans x y) h1.remotes h2.remotes,
-   IdxKeep.trans (R := PKeep) (fun _ _ _ x y => PKeep.trans x y) h1.pairs h2.pairs, h2.selStart.trans h1.selStart,
+   IdxKeep.trans2 (R1 := PKeep (LInv a → b.selected.isSome = true)) (R2 := PKeep (LInv b → c.selected.isSome = true))
+     (R3 := PKeep (LInv a → c.selected.isSome = true))
+     (fun _ _ _ x y => PKeep.trans x y (fun f i => h2.sel (f i)) (fun f i => f (h1.inv i))) h1.pairs h2.pairs,
+   h2.selStart.trans h1.selStart,
    fun h => h2.sel (h1.sel h), fun h => h2.conn (h1.conn h), fun h => h2.notCk (h1.notCk h),
    fun id h => h2.nom id (h1.nom id h),
    fun tid pd h hy hne => h2.pend tid pd (h1.pend tid pd h hy hne) hy hne, fun h => h2.inv (h1.inv h)⟩
